@@ -303,7 +303,7 @@ impl<T: Ord> PairingHeap<T> {
 
 #[cfg(kani)]
 #[path = "/verif/kani/heap.rs"]
-mod kani_verif;
+pub(crate) mod kani_verif;
 
 #[cfg(all(test, feature = "std"))]
 mod tests {
